@@ -36,13 +36,6 @@ def _upd_of(u):
     return f"{u} is not None and alive({u}) and isinstance({u}, SpanUpdater) and " + " and ".join(f"({v})" for v in cl.values())
 
 
-@spec("upd_val")
-def _upd_val(e, st, u, off, kind):
-    """the value SpanUpdater.update(u, off, bisect_<kind>) returns (functional contract of update)"""
-    k = SV(__import__("pyvc.values", fromlist=["Ty"]).Ty("func"), None, tag=("builtin", "bisect_left" if kind.v.as_long() == 0 else "bisect_right"))
-    return SV(INT, e.functional_app(st, "annotate.SpanUpdater.update", [u, off, k]))
-
-
 P2M, M2P = "document.plain_to_markup", "document.markup_to_plain"
 DOC_WF = ("document is not None and alive(document) and document.plain_text is not None "
           f"and implies({P2M} is not None, {_upd_of(P2M)} and {P2M}.len_a == len(document.plain_text) and implies(document.markup_text is not None, {P2M}.len_b == len(document.markup_text))) "
@@ -60,6 +53,9 @@ MREF_PARTS = {
     # offsets valid in the cleaned text
     "in_text": "0 <= {r}.span_start and {r}.span_start <= len(document.plain_text) and 0 <= {r}.span_end and {r}.span_end <= len(document.plain_text) "
                "and 0 <= {r}.full_span_start and {r}.full_span_start <= len(document.plain_text) and 0 <= {r}.full_span_end and {r}.full_span_end <= len(document.plain_text)",
+    # the four offsets are ordered (monotone translation, lemma update_monotone_*) and the token text is the text at the span
+    "ordered": "{r}.full_span_start <= {r}.span_start and {r}.span_start <= {r}.span_end and {r}.span_end <= {r}.full_span_end "
+               "and {r}.token.data == document.plain_text[{r}.span_start:{r}.span_end]",
     # derived from a full case citation that starts at or before it
     "after_full": "0 <= ghost.src[{j}] and ghost.src[{j}] < len(citations) and isinstance(citations[ghost.src[{j}]], FullCaseCitation) "
                   "and {r}.span_start >= citations[ghost.src[{j}]].span()[0] and {r}.full_span_start >= citations[ghost.src[{j}]].span()[0]",
@@ -114,6 +110,12 @@ def _markup_ref_group1(e, st, ms, pat, text):
     st.assume(ForAllP([j], Implies(And(j >= 0, j < ms.v.len), m_ghas(z3.Select(ms.v.arrs[0], j), S("#1"))), patterns=[z3.Select(ms.v.arrs[0], j)]))
     e.trust("E-RE-GROUP1: group 1 of the style-tag regex <(?:em|i)>\\s*(NAMES)[:;.,\\s]*</(?:em|i)> participates in every match (skeleton re-read from the AST)")
 
+# lemma steps: monotone translation of the four markup offsets of one match
+ghost_code("find.find_reference_citations_from_markup", "after:Assign#10",
+    "use_lemma('update_monotone_00', document.markup_to_plain, start_in_markup + match.start(), start_in_markup + match.start(1))\n"
+    "use_lemma('update_monotone_01', document.markup_to_plain, start_in_markup + match.start(1), start_in_markup + match.end(1))\n"
+    "use_lemma('update_monotone_11', document.markup_to_plain, start_in_markup + match.end(1), start_in_markup + match.end())\n"
+    "assert full_start_in_plain <= start_in_plain and start_in_plain <= end_in_plain and end_in_plain <= full_end_in_plain, 'offsets_ordered'")
 # lemma steps: the two instances of ROUNDTRIP the invariant needs
 ghost_code("find.find_reference_citations_from_markup", "after:Assign#7", "assert full_start_in_plain >= citation.span()[0], 'roundtrip_full_start'")
 ghost_code("find.find_reference_citations_from_markup", "after:Assign#9", "assert start_in_plain >= citation.span()[0], 'roundtrip_start'")
